@@ -1064,6 +1064,7 @@ def fam_C05(rng, tier):
     out = fam_walk(rng, tier, 'c05-walk', 60 if q else 1500, lambda r: r.choice([10, 30, 80]),
                    clones=lambda r: r.choice([1, 2, 3]), weights=dict(inbound=0, pubrel=0, stream=0),
                    allow_poll=True)
+    out += coincide_scripts('c05')
     out += fam_walk(rng, tier, 'c05-batch', 30 if q else 800, lambda r: r.choice([20, 60]),
                     clones=lambda r: r.choice([1, 2, 3]), weights=dict(inbound=0, pubrel=0, stream=0), batch=0.25)
     # many operations outstanding at once (queued in one poll of run()), acknowledged in a chosen order: the waiter queues
@@ -2053,6 +2054,52 @@ def fam_C16(rng, tier):
                 if spurious and rng.random() < 0.5:
                     ls.append('POLL ' + rng.choice(tasks))
             out.append((f'{name}#{vn}', ls))
+    out += coincide_scripts('c16', groups=True)
+    return out
+
+
+def coincide_scripts(prefix, groups=False):
+    """a handle message AND inbound bytes become ready before the context task gets its (single) poll for both wakeups.
+    `select!` may take them in either order; the inbound packets used here cause no write, so the transcript is the same
+    for both orders. With groups=True every script comes as a #wake / #sweep pair (C16 compares the two)."""
+    out = []
+    i = 0
+    for req in ['pub0', 'pub1', 'pub2', 'ping', 'sub', 'unsub']:
+        for inbound in ['puback', 'pingresp', 'item', 'suback', 'pubcomp']:
+            for variant in (['wake', 'sweep'] if groups else ['one']):
+                name = f'{prefix}-coincide-{i}' + (f'#{variant}' if groups else '')
+                s = Sess(name, f'exec={variant}' if groups else None)
+                s.connect()
+                st, sid = s.subscribed_stream()
+                o1, p1 = s.publish(1)
+                o2, p2 = s.publish(2)
+                s.feed(m.ack('pubrec', p2))
+                o3 = s.ping()
+                o4, p4, _ = s.subscribe([(b'b', '0000')])
+                s.add('HOLD ctx')
+                if req.startswith('pub'):
+                    s.publish(int(req[3]), fields=[('p', b'new')])
+                elif req == 'ping':
+                    s.ping()
+                elif req == 'sub':
+                    s.subscribe([(b'c', '0000')])
+                else:
+                    s.unsubscribe([b'c'])
+                if inbound == 'puback':
+                    s.feed(m.ack('puback', p1))
+                elif inbound == 'pingresp':
+                    s.feed(m.pingresp())
+                elif inbound == 'item':
+                    s.feed(m.publish(b'a', b'msg', 0, None, 0, 0, [(11, sid)]))
+                elif inbound == 'suback':
+                    s.feed(m.suback(p4, [0]))
+                else:
+                    s.feed(m.ack('pubcomp', p2))
+                s.add('RELEASE ctx')
+                s.ping()
+                s.feed(m.pingresp())
+                out.append(s.script())
+            i += 1
     return out
 
 
